@@ -8,7 +8,8 @@
 (***************************************************************************)
 EXTENDS ExpireGen
 
-CONSTANTS TickPct    \* percentage of steps that let time pass
+CONSTANTS TickPct,   \* percentage of steps that let time pass
+          W          \* cumulative percentages of the command kinds (sequence of 10)
 VARIABLE done
 svars == <<now, st, due, stored, shadow, log, nops, ev, hist, old, hold, done>>
 
@@ -16,19 +17,20 @@ SInit == GInit /\ done = FALSE
 
 \* (operators with a parameter: TLC evaluates zero-arity constant definitions only once)
 RE(S) == RandomElement(S)
+\* W: cumulative percentages of the kinds of command (a constant of the run, so that a run can be a burst of SET EX)
 RandomCmd ==
   LET d == RandomElement(1..100) IN
-  CASE d <= 22 -> Cmd("set", RE(Keys), RE(Ids), "", "", DlOf(RE(TTLs)))
-    [] d <= 32 -> Cmd("set", RE(Keys), RE(Ids), "", "", NoDl)
-    [] d <= 46 -> Cmd("expire", RE(Keys), RE(Ids), "", "", DlOf(RE(TTLs)))
-    [] d <= 54 -> Cmd("persist", RE(Keys), RE(Ids), "", "", NoDl)
-    [] d <= 60 -> Cmd("fset", RE(Keys), RE(Ids), "", "", NoDl)
-    [] d <= 66 -> Cmd("jset", RE(Keys), RE(Ids), "", "", NoDl)
-    [] d <= 76 -> Cmd("del", RE(Keys), RE(Ids), "", "", NoDl)
-    [] d <= 84 -> LET k == RE(Keys) IN Cmd("rename", k, "", RE(Keys \ {k}), "", NoDl)
-    [] d <= 92 -> Cmd("sethook", RE(Keys), "", "", RE(Names), DlOf(RE(TTLs)))
-    [] d <= 95 -> Cmd("sethook", RE(Keys), "", "", RE(Names), NoDl)
-    [] OTHER   -> Cmd("delhook", "", "", "", RE(Names), NoDl)
+  CASE d <= W[1]  -> Cmd("set", RE(Keys), RE(Ids), "", "", DlOf(RE(TTLs)))
+    [] d <= W[2]  -> Cmd("set", RE(Keys), RE(Ids), "", "", NoDl)
+    [] d <= W[3]  -> Cmd("expire", RE(Keys), RE(Ids), "", "", DlOf(RE(TTLs)))
+    [] d <= W[4]  -> Cmd("persist", RE(Keys), RE(Ids), "", "", NoDl)
+    [] d <= W[5]  -> Cmd("fset", RE(Keys), RE(Ids), "", "", NoDl)
+    [] d <= W[6]  -> Cmd("jset", RE(Keys), RE(Ids), "", "", NoDl)
+    [] d <= W[7]  -> Cmd("del", RE(Keys), RE(Ids), "", "", NoDl)
+    [] d <= W[8]  -> LET k == RE(Keys) IN Cmd("rename", k, "", RE(Keys \ {k}), "", NoDl)
+    [] d <= W[9]  -> Cmd("sethook", RE(Keys), "", "", RE(Names), DlOf(RE(TTLs)))
+    [] d <= W[10] -> Cmd("sethook", RE(Keys), "", "", RE(Names), NoDl)
+    [] OTHER      -> Cmd("delhook", "", "", "", RE(Names), NoDl)
 
 SimStep == /\ ~done /\ nops < MaxOps /\ now < MaxNow
            /\ IF RandomElement(1..100) <= TickPct THEN (GTick \/ GSweep) ELSE GDo(RandomCmd)
